@@ -27,8 +27,29 @@ def _buf(st, key):
     return _as_int(f.get(0)), _as_int(f.get(1))
 
 
-def _setbuf(st, key, filled, init):
-    st[key] = ("variant", "Buf", ((0, ("const", str(filled))), (1, ("const", str(init)))))
+def _setbuf(st, key, filled, init, cap=None):
+    old = st.get(key)
+    if cap is None and old is not None and old[0] == "variant":
+        cap = _as_int(dict(old[2]).get(2))
+    st[key] = ("variant", "Buf", ((0, ("const", str(filled))), (1, ("const", str(init)))) + (((2, ("const", str(cap))),) if cap is not None else ()))
+
+
+def _cap(st, key):
+    v = st.get(key)
+    return _as_int(dict(v[2]).get(2)) if v is not None and v[0] == "variant" else None
+
+
+def region(a, b):
+    return ("refval", ("variant", "Region", ((0, ("const", str(a))), (1, ("const", str(b))))))
+
+
+def _region(v):
+    v = deref_value({}, v) if v is not None and v[0] == "refval" else v
+    if v is None or v[0] != "variant" or v[1] != "Region":
+        return None
+    f = dict(v[2])
+    a, b = _as_int(f.get(0)), _as_int(f.get(1))
+    return (a, b) if a is not None and b is not None else None
 
 
 def _common(outer_tag, sub_tag):
@@ -125,19 +146,71 @@ def _res(rv):
 
 
 def evaluate_tokio_read(facts, f0):
-    """<TokioIo<T: hyper Read> as tokio::io::AsyncRead>::poll_read: caller's tokio ReadBuf (OUTER, f0 bytes already filled) <- inner hyper reader via a hyper ReadBuf (SUB) over its free space."""
+    """<TokioIo<T: hyper Read> as tokio::io::AsyncRead>::poll_read: caller's tokio ReadBuf (OUTER: f0 bytes already filled,
+    capacity f0 + 5) <- inner hyper reader via a hyper ReadBuf (SUB) over a *region* of the caller's storage.  Which region the
+    sub-buffer is built over (`unfilled_mut()`, `initialize_unfilled()`, a slice of `initialized_mut()`, ...) is followed, so
+    the table also says where the inner reader's bytes land: right behind the bytes already there."""
     fn = facts.method("bridge::io::TokioIo", "tokio::io::AsyncRead", "poll_read")
     u = inline.inline(facts, fn, 4, lambda ck, raw: "::_::" not in ck, expand=True)
-    which, o_len, win = _common("TBUF", "HBUF")
+    which, o_len0, win = _common("TBUF", "HBUF")
+    BASE, LANDED = -63, -64
 
-    def o_unfilled_mut(ev, st, t, site):
-        return _set_dest(st, t, ("const", "TBUF_FREE"))
+    def o_len(ev, st, t, site):
+        r = _region(deref_value(st, _arg(ev, st, t, 0)))
+        if r is not None:
+            return _set_dest(st, t, ("const", str(r[1] - r[0])))
+        return o_len0(ev, st, t, site)
 
-    def o_uninit(ev, st, t, site):
-        v = deref_value(st, _arg(ev, st, t, 0))
-        if v != ("const", "TBUF_FREE"):
+    def part(name):
+        def f(ev, st, t, site):
+            k = which(deref_value(st, _arg(ev, st, t, 0)))
+            if k is None:
+                return False
+            fl, ini = _buf(st, k)
+            cap = _cap(st, k)
+            if k == SUB:
+                n = {"filled": fl, "initialized": ini}.get(name)
+                return n is not None and _set_dest(st, t, ("refval", ("variant", "Window", ((0, ("const", str(n))),))))
+            if fl is None or ini is None or cap is None:
+                return False
+            if name == "filled":
+                return _set_dest(st, t, region(0, fl))
+            if name == "initialized":
+                return _set_dest(st, t, region(0, ini))
+            if name == "unfilled":
+                return _set_dest(st, t, region(fl, cap))
+            if name == "initialize_unfilled":
+                _setbuf(st, k, fl, cap)
+                return _set_dest(st, t, region(fl, cap))
+            if name == "initialize_unfilled_to":
+                n = _as_int(deref_value(st, _arg(ev, st, t, 1)))
+                if n is None or fl + n > cap:
+                    return False
+                _setbuf(st, k, fl, max(ini, fl + n))
+                return _set_dest(st, t, region(fl, fl + n))
+            if name in ("remaining", "capacity"):
+                return _set_dest(st, t, ("const", str(cap - fl if name == "remaining" else cap)))
             return False
-        _setbuf(st, SUB, 0, 0)
+        return f
+
+    def o_index(ev, st, t, site):
+        w = _region(deref_value(st, _arg(ev, st, t, 0)))
+        r = deref_value(st, _arg(ev, st, t, 1))
+        if w is None or r is None or r[0] != "variant":
+            return False
+        f = dict(r[2])
+        ln = w[1] - w[0]
+        lo, hi = {"RangeTo": (0, _as_int(f.get(0))), "RangeFrom": (_as_int(f.get(0)), ln), "Range": (_as_int(f.get(0)), _as_int(f.get(1))), "RangeFull": (0, ln)}.get(r[1], (None, None))
+        if lo is None or hi is None or lo > hi or hi > ln:
+            return False
+        return _set_dest(st, t, region(w[0] + lo, w[0] + hi))
+
+    def o_subbuf(ev, st, t, site):
+        r = _region(deref_value(st, _arg(ev, st, t, 0)))
+        if r is None:
+            return False
+        st[BASE] = ("const", str(r[0]))
+        _setbuf(st, SUB, 0, 0, r[1] - r[0])
         return _set_dest(st, t, ("const", "HBUF"))
 
     def o_unfilled(ev, st, t, site):
@@ -149,16 +222,21 @@ def evaluate_tokio_read(facts, f0):
     def o_inner(ev, st, t, site):
         b = deref_value(st, _arg(ev, st, t, 2))
         cx = deref_value(st, _arg(ev, st, t, 1))
-        if b != ("const", "HBUF_CURSOR"):
+        base, cap = _as_int(st.get(BASE)), _cap(st, SUB)
+        if b != ("const", "HBUF_CURSOR") or base is None or cap is None:
             return False
         alts = []
         for name, k in (("Pending", None), ("Err", None), ("Ok:0", 0), ("Ok:2", 2)):
+            if k is not None and k > cap:
+                continue
             s2 = dict(st)
             _log(s2, "inner:%s:%s" % (name, cx[1] if cx is not None and cx[0] == "const" else "?"))
             if k is None:
                 res = ("variant", "Pending", ()) if name == "Pending" else ("variant", "Ready", ((0, ("variant", "Err", ((0, ("const", "IO_ERROR")),))),))
             else:
                 _setbuf(s2, SUB, k, k)
+                if k:
+                    s2[LANDED] = ("const", "[%d,%d)" % (base, base + k))
                 res = ("variant", "Ready", ((0, ("variant", "Ok", ((0, tup()),))),))
             s2[t["dest"]["l"]] = res
             alts.append(s2)
@@ -169,6 +247,8 @@ def evaluate_tokio_read(facts, f0):
         fl, ini = _buf(st, OUTER)
         if n is None:
             _log(st, "assume_init:?")
+        elif fl + n > _cap(st, OUTER):
+            _log(st, "assume_init:%d-beyond-capacity" % (fl + n))
         else:
             _setbuf(st, OUTER, fl, max(ini, fl + n))
         return _set_dest(st, t, tup())
@@ -197,18 +277,26 @@ def evaluate_tokio_read(facts, f0):
 
     def o_project(ev, st, t, site):
         return _set_dest(st, t, ("variant", "__Proj", ((0, ("const", "INNER")),)))
-    raw = [(r"tokio::io::ReadBuf.*::unfilled_mut$", o_unfilled_mut), (r"hyper::rt::(io::)?ReadBuf.*::uninit$", o_uninit), (r"hyper::rt::(io::)?ReadBuf.*::unfilled$", o_unfilled),
+    T = r"tokio::io::ReadBuf.*::"
+    raw = [(T + r"unfilled_mut$", part("unfilled")), (T + r"initialize_unfilled$", part("initialize_unfilled")), (T + r"initialize_unfilled_to$", part("initialize_unfilled_to")),
+           (T + r"(remaining)$", part("remaining")), (T + r"(capacity)$", part("capacity")),
+           (r"hyper::rt::(io::)?ReadBuf.*::(uninit|new)$", o_subbuf), (r"hyper::rt::(io::)?ReadBuf.*::unfilled$", o_unfilled),
            (r"hyper::rt::(io::)?Read.*::poll_read$|rt::Read::poll_read$", o_inner),
-           (r"ReadBuf.*::filled$", win("filled")), (r"ReadBuf.*::initialized$", win("initialized")), (r"<impl \[T\]>::len$|slice.*::len$", o_len),
-           (r"tokio::io::ReadBuf.*::assume_init$", o_assume_init), (r"tokio::io::ReadBuf.*::set_filled$", o_set_filled), (r"tokio::io::ReadBuf.*::advance$", o_advance),
+           (r"ReadBuf.*::filled(_mut)?$", part("filled")), (r"ReadBuf.*::initialized(_mut)?$", part("initialized")), (r"<impl \[.*\]>::len$|slice.*::len$", o_len),
+           (r"Index(Mut)?.*::index(_mut)?$", o_index),
+           (T + r"assume_init$", o_assume_init), (T + r"set_filled$", o_set_filled), (T + r"advance$", o_advance),
            (r"::_::<impl .*>::project$", o_project)] + seqmodel.OPTION_ORACLES
     st = {1: ("const", "SELF"), 2: ("const", "CX"), 3: ("refval", ("const", "TBUF")), LOG: ("list", ())}
-    _setbuf(st, OUTER, f0, f0)
+    _setbuf(st, OUTER, f0, f0, f0 + 5)
 
     def outer(st_):
         return _buf(st_, OUTER)[0]
-    outs = AbsPaths(u, limit=20000, raw_oracles=raw, oracles=[INT_CMP, VALUE_EQ]).outcomes(state=st, extra_keys=(LOG, outer))
-    return u, {(tuple(e[1] for e in o[2][0][1]), _res(o[0]), o[2][1]) for o in outs}
+
+    def landed(st_):
+        v = st_.get(LANDED)
+        return v[1] if v is not None else "none"
+    outs = AbsPaths(u, limit=20000, raw_oracles=raw, oracles=[INT_CMP, VALUE_EQ]).outcomes(state=st, extra_keys=(LOG, outer, landed))
+    return u, {(tuple(e[1] for e in o[2][0][1]), _res(o[0]), o[2][1], o[2][2]) for o in outs}
 
 
 def hyper_read_table(ctx, facts, label="TokioIo Read"):
@@ -236,8 +324,9 @@ def tokio_read_table(ctx, facts, label="TokioIo AsyncRead"):
         if rows == 0:
             ctx.touched(u)
         rows += 1
-        want = {(("inner:Pending:CX",), "Pending", f0), (("inner:Err:CX",), "Ready(Err(IO_ERROR))", f0), (("inner:Ok:0:CX",), "Ready(Ok)", f0), (("inner:Ok:2:CX",), "Ready(Ok)", f0 + 2)}
+        want = {(("inner:Pending:CX",), "Pending", f0, "none"), (("inner:Err:CX",), "Ready(Err(IO_ERROR))", f0, "none"), (("inner:Ok:0:CX",), "Ready(Ok)", f0, "none"),
+                (("inner:Ok:2:CX",), "Ready(Ok)", f0 + 2, "[%d,%d)" % (f0, f0 + 2))}
         extra, lost = sorted(got - want, key=repr), sorted(want - got, key=repr)
-        ctx.check(not extra and not lost, key, "the inner reader fills a buffer over the caller's free space; on Ready(Ok) the caller's filled mark moves by exactly the bytes read, after they were declared initialised; Pending and errors are returned unchanged",
-                  "the bridge can do %s; it cannot do %s" % (extra[:2], lost[:2]), u.where())
+        ctx.check(not extra and not lost, key, "the inner reader fills a buffer over the caller's free space (the bytes land right behind those already there); on Ready(Ok) the caller's filled mark moves by exactly the bytes read, after they were declared initialised; Pending and errors are returned unchanged",
+                  "the bridge can do %s; it cannot do %s  (events, answer, caller's filled mark, where the new bytes landed)" % (extra[:2], lost[:2]), u.where())
     ctx.floor("%s|table-rows" % label, rows, 2, "scenarios evaluated")
